@@ -2,6 +2,7 @@ import GcArena.Proofs.Events
 import GcArena.Proofs.Exact
 import GcArena.Proofs.RunBridge
 import GcArena.Proofs.Release
+import GcArena.Proofs.ShellRun
 /-!
 # C02 — Exact, complete reclamation
 
@@ -181,6 +182,50 @@ theorem shell_release_run (n : Nat) (pre : List Op) (i : Nat) (o : Obj) (ops : L
   intro a halive hcb hsl ho _ hnn hal hz
   exact unnameable_released_run n pre i o ops halive hcb hsl ho hnn hal hz
 
+/-- **Shell release — the last clause of C02 as read here** (proved): "such a shell is released by
+    the first full cycle that starts after no reachable weak pointer refers to it".  "After no
+    reachable weak pointer refers to it" is read as *from then on*: on any sleeping state an arena can
+    reach — a cycle is about to start — let `i` be a destructed shell, and let `ops` be any
+    continuation of the history: callbacks of every kind with any mutation, collection calls of
+    every method.  If in every state at an operation boundary from here on no reachable weak
+    pointer refers to `i` — `WeakHeldA`: a `GcWeak` to `i` in the root, held by the running callback,
+    or stored in an object accessible through `Gc` pointers from the root or from what the callback
+    holds — then once that cycle has completed (a `'Z'` in the step log) the shell has been
+    released: its block is gone and `freed i` is logged.
+    The other conceivable reading — the premise asked only of the state in which the cycle starts,
+    whatever the mutator does during the cycle — is not what the code can or should deliver (a
+    mutator that revives the holder of the weak pointer makes that pointer reachable again, and C05
+    then requires the shell to stay queryable): it is written out as `shell_release_start_only_reading`
+    and refuted by `shell_release_start_only_reading_false`; `callback_held_holder_keeps_shell`
+    shows that "reachable" must include what the running callback holds.  (Outside callbacks
+    `WeakHeldA` is `WeakHeld`: `weakHeldA_iff`.) -/
+theorem shell_release_while_unheld (n : Nat) (pre : List Op) (i : Nat) (o : Obj) (ops : List Op) :
+    let a := (Arena.new n).run pre
+    a.alive = true → a.ctx.phase = .sleep →
+    a.ctx.heap.get i = some o → o.live = false →
+    (∀ k, k ≤ ops.length → ¬ WeakHeldA (a.run (ops.take k)) i) →
+    (a.run ops).alive = true →
+    (∃ new, (a.run ops).ctx.steps = new ++ a.ctx.steps ∧ 'Z' ∈ new) →
+    (a.run ops).ctx.heap.get i = none ∧ Event.freed i ∈ (a.run ops).ctx.log := by
+  intro a halive hsl ho hdead hP hal ⟨new, hnew, hz⟩
+  exact shell_released_run (inv_run n pre halive) hsl i o ho hdead ops hP hal (zc_lt_of_suffix hnew hz)
+
+/-- The last clause of C02 under the *start-only* reading: the premise is asked of the state in
+    which the cycle starts only, and anything may be interleaved with the cycle.  **False** of model
+    and code, and rightly so (see `shell_release_while_unheld`): `shell_release_start_only_reading_false`.
+    Proved: `shell_release` (the cycle runs at once), `shell_release_run` (premise on the first state
+    only, but `¬ Nameable`: no chain of pointers of either kind, which mutation cannot undo), and
+    `shell_release_while_unheld` (the clause as read: the premise holds from then on). -/
+def shell_release_start_only_reading : Prop :=
+  ∀ (n : Nat) (pre : List Op) (i : Nat) (o : Obj) (ops : List Op),
+    let a := (Arena.new n).run pre
+    a.alive = true → a.cb = none → a.ctx.phase = .sleep →
+    a.ctx.heap.get i = some o → o.live = false →
+    ¬ WeakHeld a.ctx a.root i →
+    (a.run ops).alive = true →
+    (∃ new, (a.run ops).ctx.steps = new ++ a.ctx.steps ∧ 'Z' ∈ new) →
+    (a.run ops).ctx.heap.get i = none
+
 /-! ### Non-vacuity: a cycle of garbage and a weakly held shell -/
 
 /-- 0 ⇄ 1 is an unreachable cycle; 2 is held weakly by the root only. -/
@@ -350,5 +395,79 @@ theorem unheld_shell_can_survive :
     subst this
     rw [h0] at hoj; cases hoj
     simp at hs
+
+private theorem not_weakHeld_of_shape {c : Ctx} {root : List Slot} (hroot : root = [some (.strong 0)])
+    (h0 : (c.heap.get 0).map (·.slots) = some [none, some (.weak 1)]) : ¬ WeakHeld c root 2 := by
+  have reach : ∀ j, StrongReachC c root j → j = 0 := by
+    intro j hj
+    induction hj with
+    | root t ht => rw [hroot] at ht; simpa using ht
+    | temp t ht => cases ht
+    | edge i t _ e ih =>
+      subst ih
+      obtain ⟨o, ho, hs⟩ := e
+      rw [ho] at h0
+      simp only [Option.map_some, Option.some.injEq] at h0
+      rw [h0] at hs; simp at hs
+  rintro (hw | ⟨j, oj, hj, hoj, hs⟩)
+  · rw [hroot] at hw; simp at hw
+  · have := reach j hj
+    subst this
+    rw [hoj] at h0
+    simp only [Option.map_some, Option.some.injEq] at h0
+    rw [h0] at hs; simp at hs
+
+/-- The literal clause is false: `unheld_shell_can_survive` is a counterexample. -/
+theorem shell_release_start_only_reading_false : ¬ shell_release_start_only_reading := by
+  intro hst
+  obtain ⟨h1, h2, h3, h4, h5, h6, h7, _⟩ := unheld_shell_can_survive
+  have := hst 1 weakChain 2 ⟨.white, true, false, []⟩ reviveHolder h1 h2 h3 h4 rfl h5 (by decide)
+    ⟨['Z', 'e', 'x', 'x', 'x', 'S', 'b', 'g', 'g', 'r', 'W'], by decide, by decide⟩
+  rw [h7] at this
+  cases this
+
+/-- The same shell, a different route: the finalizer callback of the cycle resurrects the holder X
+    and returns without storing the pointer anywhere. -/
+def viaFinalizer : List Op := [
+  .collect .finishMarking .finalize none none,
+  .enter .finalize, .readRoot 0, .read 0 1, .resurrect (.weak 1), .leave,
+  .collect .finishCycle .drop none none ]
+
+/-- **Why "reachable" must include what the running callback holds.**  Along `viaFinalizer` the
+    shell 2 is at *no* operation boundary weakly held by the root or by an object strongly reachable
+    from the root (`WeakHeld`, the root-only notion); a full cycle completes; the shell is still
+    allocated.  Between `resurrect` and `leave` the callback holds the `Gc` to X, which holds the
+    weak pointer: `WeakHeldA` is true there, as `shell_release_while_unheld` demands. -/
+theorem callback_held_holder_keeps_shell :
+    let a := (Arena.new 1).run weakChain
+    (∀ k, k ≤ viaFinalizer.length →
+      ¬ WeakHeld (a.run (viaFinalizer.take k)).ctx (a.run (viaFinalizer.take k)).root 2) ∧
+    (a.run viaFinalizer).ctx.steps.count 'Z' = a.ctx.steps.count 'Z' + 1 ∧
+    (a.run viaFinalizer).ctx.heap.get 2 = some ⟨.white, true, false, []⟩ ∧
+    WeakHeldA (a.run (viaFinalizer.take 5)) 2 := by
+  intro a
+  refine ⟨?_, by decide, by decide, ?_⟩
+  · intro k hk
+    have hk' : k = 0 ∨ k = 1 ∨ k = 2 ∨ k = 3 ∨ k = 4 ∨ k = 5 ∨ k = 6 ∨ k = 7 := by
+      simp [viaFinalizer] at hk; omega
+    rcases hk' with rfl | rfl | rfl | rfl | rfl | rfl | rfl | rfl <;>
+      exact not_weakHeld_of_shape (by decide) (by decide)
+  · right; right
+    refine ⟨1, ⟨.gray, true, true, [some (.weak 2)]⟩, .temp 1 (by decide), by decide, by simp⟩
+
+/-- `shell_release_while_unheld` on `unheld` with the history `unheldOps`: the premise holds in each
+    of the twelve states (nothing ever refers to the shell), so the shell is released. -/
+example : (unheld.run unheldOps).ctx.heap.get 2 = none := by
+  unfold unheld
+  have key := shell_release_while_unheld 1 unheldPre 2 ⟨.white, true, false, []⟩ unheldOps (by decide)
+    (by decide) (by decide) rfl
+  refine (key ?_ (by decide) ⟨['Z', 'e', 'x', 'x', 'S', 'b', 'b', 'g', 'r', 'W'], by decide, by decide⟩).1
+  -- no weak pointer to 2 exists anywhere in any of these states (checked by evaluation)
+  intro k hk
+  have hk' : k = 0 ∨ k = 1 ∨ k = 2 ∨ k = 3 ∨ k = 4 ∨ k = 5 ∨ k = 6 ∨ k = 7 ∨ k = 8 ∨ k = 9 ∨ k = 10 ∨
+      k = 11 := by
+    simp [unheldOps] at hk; omega
+  rcases hk' with rfl | rfl | rfl | rfl | rfl | rfl | rfl | rfl | rfl | rfl | rfl | rfl <;>
+    exact not_weakHeldA_of_noWeakTo (by decide)
 
 end GcArena.C02
